@@ -4,13 +4,15 @@
   Model: EEM.Model.Sufficiency (hand model, tied to the real SufficiencyCriteria classes by ./check C10).
 -/
 import EEM.Model.Sufficiency
+import EEM.Gen.SufficiencyPlan
+import EEM.Bridge.SuffPlan
 import Mathlib.Tactic.Linarith
 import Mathlib.Tactic.FieldSimp
 import Mathlib.Tactic.Ring
 import Mathlib.Algebra.Order.Field.Rat
 
 namespace EEM.Props.C10
-open EEM.Model.Sufficiency
+open EEM.Model.Sufficiency EEM.Model.SufficiencyPlan EEM.Bridge.SuffPlan
 
 /-- the published criteria, clause by clause, for a frame whose first and last complete rows are
 `n` days apart (inclusive) -/
@@ -35,6 +37,72 @@ theorem C10_verdict_exact (cfg : Cfg) (rows : List Row) (n : Int) (h : nDaysTota
   unfold verdict
   rw [h, hm]
   cases d <;> simp [violated, List.mem_append, List.any_eq_true] <;> tauto
+
+open EEM.Gen.SufficiencyPlan in
+/-- **the source's plan is the model's verdict**: running the regenerated plan of the entry point — every
+`_check_*` in call order, each disqualification under the guard the source puts around its `append` — on a
+frame with at least one complete row yields exactly `verdict`, for every family, entry point and flag
+combination (also the mismatched ones) -/
+theorem C10_src_plan_is_verdict (cfg : Cfg) (rows : List Row) (n : Int) (h : nDaysTotal rows = some n) :
+    runPlan cfg rows n (plan cfg.family cfg.methodReporting) = verdict cfg rows := by
+  obtain ⟨fam, mr, rep, el⟩ := cfg
+  unfold verdict
+  rw [h]
+  cases fam <;> cases mr <;>
+    simp [runPlan, plan, runCheck, evalCond, evalQ, colFlag, dailyBaseline, dailyReporting, billingBaseline,
+      billingReporting, hourlyBaseline, hourlyReporting, SufficiencyCriteria_check_no_data,
+      SufficiencyCriteria_check_negative_meter_values, SufficiencyCriteria_check_baseline_length_daily_billing_model,
+      SufficiencyCriteria_check_valid_days_percentage, SufficiencyCriteria_check_valid_meter_readings_percentage,
+      SufficiencyCriteria_check_valid_temperature_values_percentage,
+      SufficiencyCriteria_check_monthly_temperature_values_percentage, SufficiencyCriteria_check_extreme_values,
+      BillingSufficiencyCriteria_check_estimated_meter_values,
+      HourlySufficiencyCriteria_check_monthly_meter_readings_percentage,
+      HourlySufficiencyCriteria_check_monthly_ghi_percentage,
+      lt_frac_eq_under90, anyMonth_lt_eq, negcount_gt_zero, ndays_gt, ndays_lt, List.filter_cons, List.filter_nil, map_dq_ite, -List.any_eq_true]
+
+
+open EEM.Gen.SufficiencyPlan in
+/-- **what the source reports is exactly what is violated** — `C10_verdict_exact` restated on the regenerated
+plan: a disqualification is appended by the entry point the data class calls iff its published criterion is
+violated -/
+theorem C10_src_reported_iff_violated (cfg : Cfg) (rows : List Row) (n : Int) (h : nDaysTotal rows = some n)
+    (hm : cfg.methodReporting = cfg.reporting) (d : DQ) :
+    d ∈ runPlan cfg rows n (plan cfg.family cfg.methodReporting) ↔ violated cfg rows n d := by
+  rw [C10_src_plan_is_verdict cfg rows n h]
+  exact C10_verdict_exact cfg rows n h hm d
+
+open EEM.Gen.SufficiencyPlan in
+/-- every data class calls the entry point that matches the flag it passes (`is_reporting_data=True` ⇔
+`check_sufficiency_reporting`), uses the criteria class of its own family, and all six are present — the
+hypothesis `hm` of the theorems above holds at every call site of the source (it did not before C10-F4) -/
+theorem C10_src_call_sites_consistent :
+    (∀ s ∈ callSites, s.2.2.1 = s.2.2.2) ∧
+    callSites.map (fun s => (s.1, s.2.1)) =
+      [("DailyBaselineData", Family.daily), ("DailyReportingData", .daily), ("BillingBaselineData", .billing),
+       ("BillingReportingData", .billing), ("HourlyBaselineData", .hourly), ("HourlyReportingData", .hourly)] ∧
+    callSites.map (fun s => s.2.2.2) = [false, true, false, true, false, true] := by
+  decide
+
+open EEM.Gen.SufficiencyPlan in
+/-- the checks that only *warn* (extreme values, estimated reads) can never append a disqualification, and the only
+warning any planned check issues is `extreme_values_detected`: warnings never change the verdict -/
+theorem C10_src_warning_checks_never_disqualify (fam : Family) (mr : Bool) :
+    ∀ c ∈ plan fam mr, c.warns ≠ [] → c.emits = [] := by
+  cases fam <;> cases mr <;> decide
+
+open EEM.Gen.SufficiencyPlan in
+/-- which disqualifications each entry point of the source can ever append -/
+theorem C10_src_plan_emits :
+    planEmits (plan .daily false) = [.no_data, .negative_meter_values, .incorrect_number_of_total_days,
+      .too_many_days_with_missing_data, .too_many_days_with_missing_meter_data,
+      .too_many_days_with_missing_temperature_data, .missing_monthly_temperature_data] ∧
+    planEmits (plan .billing false) = planEmits (plan .daily false) ∧
+    planEmits (plan .hourly false) = planEmits (plan .daily false) ++ [.missing_monthly_meter_data, .missing_monthly_ghi_data] ∧
+    planEmits (plan .daily true) = [.no_data, .too_many_days_with_missing_data,
+      .too_many_days_with_missing_temperature_data, .missing_monthly_temperature_data] ∧
+    planEmits (plan .billing true) = planEmits (plan .daily true) ∧
+    planEmits (plan .hourly true) = planEmits (plan .daily true) ++ [.missing_monthly_ghi_data] := by
+  decide
 
 /-- a data class that runs the reporting checks but forgets to pass `is_reporting_data` judges reporting
 data by its usage as well: the verdict can then contain a usage-based disqualification although no
